@@ -290,6 +290,21 @@ Definition template_data (env : string -> option (string * list pfunc)) (fixed :
               td_imports := sort_by i_uname imps |}                        (* sort.Sort(info.Imports) *)
   end.
 
+(* ---------------------------------------------------------------- what Compile hands to `go build`
+   mage.Magefiles: go/build lists the directory through ioutil.ReadDir, which SORTS the entries by
+   name (modelled, not verified), and keeps the files that are magefiles ([selected]: the subject of
+   C10; a parameter here) in that order.  mage.Invoke appends the generated main file; mage.Compile
+   takes the base names and runs  go build -o <out> [-ldflags <l>] <files...>  in the directory.
+   [entries] is the raw directory listing, an adversary (file-system order). *)
+Definition mainfile : string := "mage_output_file.go".
+
+Definition magefile_list (selected : string -> bool) (entries : list string) : list string :=
+  filter selected (sort_by (fun s => s) entries).
+
+Definition compile_args (out ldflags : string) (selected : string -> bool) (entries : list string) : list string :=
+  ["build"; "-o"; out] ++ (if String.eqb ldflags "" then [] else ["-ldflags"; ldflags])
+  ++ magefile_list selected entries ++ [mainfile].
+
 (* the association the property speaks about *)
 Definition association (t : tdata) : list (string * string) :=
   map (fun i => (i_path i, i_uname i)) (td_imports t).
